@@ -190,10 +190,16 @@ func optInt(s string) int {
 	if s == "-" {
 		return -1
 	}
+	if s == "v" {
+		return -2 // a non-host affinity (virtual:...)
+	}
 	n, _ := strconv.Atoi(s)
 	return n
 }
 func showOpt(n int) string {
+	if n == -2 {
+		return "v"
+	}
 	if n < 0 {
 		return "-"
 	}
@@ -234,6 +240,9 @@ func buildBlock(b int, aff int, es []entry) model.KVPair {
 	blk := &model.AllocationBlock{CIDR: cidr, Allocations: make([]*int, blockSize), SequenceNumberForAllocation: map[string]uint64{}}
 	if aff >= 0 {
 		a := "host:" + nodeName(aff)
+		blk.Affinity = &a
+	} else if aff == -2 {
+		a := "virtual:load-balancer"
 		blk.Affinity = &a
 	}
 	used := map[int]bool{}
@@ -516,7 +525,12 @@ func doSync(h *rt.H, s *state, full bool, fail func(string, string)) string {
 				fail("release-seq", fmt.Sprintf("released %s with sequence number %d, the allocation seen has %d", id, r.seq, ent.seq))
 			}
 			if f.ownerJustifies(*ent, r.b) {
-				fail("release-in-use", "released an address whose owner still justifies it at the time of release: "+id)
+				sig := "release-in-use"
+				if k, ok := f.cnodes[ent.node]; !ok || k < 0 || !f.knodes[k] {
+					// the hosting node is gone/unknown: the final check used the (stale) informer cache, no grace period
+					sig = "release-in-use-node-gone-stale-cache"
+				}
+				fail(sig, "released an address whose owner still justifies it at the time of release: "+id)
 			}
 			// grace: only needed while the hosting Kubernetes node still exists
 			if k, ok := f.cnodes[ent.node]; ok && k >= 0 && f.knodes[k] {
@@ -901,9 +915,34 @@ func genStaleCache(h *rt.H) []string {
 	return ops
 }
 
+// genStaleCacheNodeGone: the informer cache has lost a pod the API still has AND the pod's Calico node resource is
+// deleted (etcd mode: `calicoctl delete node`; KDD: node object gone while the pod object lingers): the collector
+// skips the grace period and its final check prefers the cache.
+func genStaleCacheNodeGone(h *rt.H) []string {
+	p := 1 + h.Intn(6)
+	o := ownerOf(p)
+	b := 1 + h.Intn(nBlocks)
+	ord := h.Intn(blockSize)
+	ops := []string{"new " + rt.Pick(h, []string{"60", "0", "-"}), "insync"}
+	for n := 1; n <= nNodes; n++ {
+		ops = append(ops, fmt.Sprintf("cnode %d %d", n, n), fmt.Sprintf("knode %d 1", n))
+	}
+	ops = append(ops, fmt.Sprintf("block %d %d %d:%d:p:%d:%d:7", b, o.node, ord, p, o.node, o.pod))
+	ops = append(ops, fmt.Sprintf("pod %d 1 1 %d 0 %d.%d", p, o.node, b, ord), "sync 1")
+	ops = append(ops, fmt.Sprintf("poddel %d 1 0", p), fmt.Sprintf("cnodedel %d", o.node))
+	if h.Bool() {
+		ops = append(ops, fmt.Sprintf("knode %d 0", o.node))
+	}
+	ops = append(ops, fmt.Sprintf("dirty %d", o.node), "sync "+b01(h.Bool()), "dump")
+	return ops
+}
+
 func genCase(h *rt.H) []string {
 	if h.Chance(0.08) {
 		return genStaleCache(h)
+	}
+	if h.Chance(0.02) {
+		return genStaleCacheNodeGone(h)
 	}
 	g := &gen{h: h, blocks: map[int]*blockT{}, pods: map[int]bool{}, knodes: map[int]bool{}, cnodes: map[int]bool{}}
 	grace := rt.Pick(h, []string{"60", "60", "60", "60", "60", "60", "0", "-"})
@@ -936,6 +975,8 @@ func genCase(h *rt.H) []string {
 				aff := -1
 				if h.Chance(0.85) {
 					aff = 1 + h.Intn(nNodes)
+				} else if h.Bool() {
+					aff = -2
 				}
 				blk = &blockT{aff: aff}
 				if aff >= 0 && g.emptyAffine(aff, b) >= 1 {
@@ -991,8 +1032,11 @@ func genCase(h *rt.H) []string {
 				blk.es[h.Intn(len(blk.es))].seq = g.seq
 			case 8: // affinity released / claimed (possibly straight from one host to another: a resync only shows the latest state)
 				na := -1
-				if h.Bool() {
+				switch h.Intn(5) {
+				case 0, 1:
 					na = 1 + h.Intn(nNodes)
+				case 2:
+					na = -2 // a non-host (virtual:) affinity
 				}
 				if na >= 0 && len(blk.es) == 0 && g.emptyAffine(na, b) >= 1 {
 					continue
@@ -1130,7 +1174,7 @@ func main() {
 	h := rt.New()
 	defer h.Close()
 	h.Rule = "case = `new GRACE` (60 min / 0 / unset) + 3 Calico+Kubernetes nodes + 10..54 ops (thorough ..109) over {block update (allocate, release, re-allocate with a new sequence number, " +
-		"affinity change incl. host->host, clear), block delete, pod add/change/delete (missing IPs, other IP, evicted, rescheduled, unscheduled), stale informer cache, Kubernetes node delete/create, " +
+		"affinity change incl. host->host and host->virtual, clear), block delete, pod add/change/delete (missing IPs, other IP, evicted, rescheduled, unscheduled), stale informer cache (also together with a deleted Calico node), Kubernetes node delete/create, " +
 		"Calico node delete/create/non-k8s, dirty mark, tick 25/40/70 min, sync (dirty/full), dump} on 5 blocks of 8 addresses and 11 handles (pod, tunnel, unknown-source, windows-reserved, no handle, no node attribute); " +
 		"generator keeps outcomes independent of Go map order (<=1 empty block per node; a pod reports all or none of its handle's addresses; cache/API disagree only for single-address handles on existing nodes); " +
 		"distinct = distinct op sequence; non-trivial = the case issued at least one ReleaseIPs / ReleaseBlockAffinity / ReleaseHostAffinities call"
